@@ -1101,7 +1101,7 @@ func init() {
 		Profiles: []*Profile{{Name: "c19-throttle", MaxConns: 32}},
 		Config:   c19Config,
 		Custom:   c19Scenario,
-		Monitors: func() []Monitor { return []Monitor{NewMonC19(), NewMonC07()} },
+		Monitors: func() []Monitor { return []Monitor{NewMonC19(), NewMonC07(), NewMonC06()} },
 		Trigger:  triggerC19,
 	})
 }
